@@ -227,7 +227,9 @@ proof! {
 				let (c, _, _) = k::any_elem();
 				let p: bool = nd::any();
 				all_proofs &= p;
-				outputs.push(Output::new(OutputFeatures::Plain, c, k::proof(p)));
+				// plain or coinbase-flagged: a block body carries both, and both need their proof
+				let cb: bool = nd::any();
+				outputs.push(Output::new(if cb { OutputFeatures::Coinbase } else { OutputFeatures::Plain }, c, k::proof(p)));
 				i += 1;
 			}
 			let mut kernels = Vec::new();
@@ -235,7 +237,7 @@ proof! {
 			i = 0;
 			while i < NK {
 				let (c, _, _) = k::any_elem();
-				let (feat, _) = k::any_features(false);
+				let (feat, _) = k::any_features(true);
 				let s: bool = nd::any();
 				all_sigs &= s;
 				kernels.push(TxKernel { features: feat, excess: c, excess_sig: k::sig(s) });
